@@ -177,7 +177,8 @@ def run_batch(plan, tier, seed, n_runs=None, workers=None, wall_cap_s=None):
     n_runs = n_runs if n_runs is not None else plan.runs[tier]
     workers = workers or int(os.environ.get("VERIF_WORKERS", "0")) or min(16, os.cpu_count() or 1)
     wall_cap_s = wall_cap_s or (600 if tier == "quick" else 7200)
-    chunks = [(plan, tier, seed, s, min(n_runs, s + CHUNK), wall_cap_s) for s in range(0, n_runs, CHUNK)]
+    chunk_deadline = wall_cap_s if tier == "thorough" else min(wall_cap_s, 420)
+    chunks = [(plan, tier, seed, s, min(n_runs, s + CHUNK), chunk_deadline) for s in range(0, n_runs, CHUNK)]
     results = []
     ctx = multiprocessing.get_context("fork")
     if workers == 1:
@@ -191,16 +192,40 @@ def run_batch(plan, tier, seed, n_runs=None, workers=None, wall_cap_s=None):
         if getattr(plan, "uses_pristine", False):
             from . import pristine
             init = pristine.init_zygote      # each worker forks its zygote before it executes anything
-        with ProcessPoolExecutor(max_workers=workers, mp_context=ctx, initializer=init) as ex:
+        ex = ProcessPoolExecutor(max_workers=workers, mp_context=ctx, initializer=init)
+        trouble = None
+        try:
             futs = [ex.submit(_chunk_worker, c) for c in chunks]
             last = time.time()
-            for f in as_completed(futs, timeout=wall_cap_s):
-                results.append(f.result())
-                if time.time() - last > 60:
-                    last = time.time()
-                    nv = sum(len(r["viols"]) for r in results)
-                    print(f"progress: {len(results)}/{len(chunks)} chunks, {nv} violating runs so far, "
-                          f"{time.time() - t0:.0f}s", flush=True)
+            try:
+                for f in as_completed(futs, timeout=wall_cap_s):
+                    try:
+                        results.append(f.result())
+                    except Exception as e:      # noqa: BLE001 - a worker died (BrokenProcessPool) or raised
+                        trouble = trouble or f"{type(e).__name__}: {e}"
+                        if type(e).__name__ == "BrokenProcessPool":
+                            break
+                    if time.time() - last > 60:
+                        last = time.time()
+                        nv = sum(len(r["viols"]) for r in results)
+                        print(f"progress: {len(results)}/{len(chunks)} chunks, {nv} violating runs so far, "
+                              f"{time.time() - t0:.0f}s", flush=True)
+            except TimeoutError as e:
+                trouble = f"TimeoutError: {e}"
+        finally:
+            if trouble:
+                for proc in list(getattr(ex, "_processes", {}).values()):
+                    try:
+                        proc.kill()
+                    except Exception:       # noqa: BLE001
+                        pass
+            ex.shutdown(wait=not trouble, cancel_futures=True)
+        if trouble:
+            # part of the batch did not finish (a worker hung or died).  Violations already found in the
+            # finished part are real and are reported; with none, the check cannot claim anything: exit 2.
+            if not any(r["viols"] for r in results):
+                raise engine.HarnessError(f"batch incomplete ({len(results)}/{len(chunks)} chunks): {trouble}")
+            print(f"warning: batch incomplete ({len(results)}/{len(chunks)} chunks): {trouble}", flush=True)
     results.sort(key=lambda r: r["start"])
     agg = {"stats": {}, "digests": set(), "sigs": set(), "trans": set(), "scheds": set(), "viols": [],
            "samples": [], "nontrivial": 0, "known": {}}
@@ -216,7 +241,7 @@ def run_batch(plan, tier, seed, n_runs=None, workers=None, wall_cap_s=None):
             agg["known"][k] = agg["known"].get(k, 0) + v
         if r["sample"]:
             agg["samples"].append(r["sample"])
-    agg["runs"] = n_runs
+    agg["runs"] = sum(r["stop"] - r["start"] for r in results)
     agg["workers"] = workers
     agg["wall_s"] = time.time() - t0
     return agg
